@@ -92,12 +92,15 @@ CLAIMED = {
             "DESIGN.md 4/C07"),
     "C08": ("SCHED", "model_checking",
             "stateless deviation-bounded schedule exploration of every (termination cause, life point, role) combination",
-            "Real node taken to 7 life points by the real handshake, 7 termination causes, both roles (29 combinations): "
-            "all at d = 0, six at d <= 1 in quick; all at d <= 1 and four at d <= 2 in thorough; at quiescence state "
+            "Real node taken to 10 life points (start() itself, connecting, awaiting the CEA, accepted-before-CER, four Open "
+            "situations incl. an application thread that keeps sending, Closing) x 12 termination causes (local close, "
+            "early close with a willing / silent peer, close with a silent peer, DPR, DPA, FIN, RST, refused, non-CEA), "
+            "both roles (about 50 combinations): all at d = 0, eleven at d <= 1 in quick; all at d <= 1 and four at "
+            "d <= 2 in thorough; at quiescence state "
             "Closed, sockets closed and de-registered, all worker threads gone, blocked get_message() returned, no lock "
             "held, and in the same execution a second start() with a second scripted handshake reaches Open.",
             "Same scheduling-point and fake-network assumptions as C04/C05; threads that end by an exception during the "
-            "shutdown race count as terminated; local close() is only issued once Open.",
+            "shutdown race count as terminated.",
             "DESIGN.md 4/C08"),
     "C09": ("ENUM", "exploration",
             "bounded-exhaustive enumeration of constructor-argument subsets against a hand-written command table",
@@ -146,13 +149,18 @@ CLAIMED = {
             "multiples of 1000 and answers whose Result-Code was dropped for an Experimental-Result are unconstrained.",
             "DESIGN.md 4/C12"),
     "C13": ("HIST", "exploration",
-            "bounded-exhaustive enumeration of route tables x request histories on the real dispatcher",
+            "bounded-exhaustive enumeration of route tables x request histories on the real dispatcher, plus stateless schedule exploration of two requests in flight",
             "All 63 non-empty route tables over {S6a, Gx} x {316, 317, 272} registered through @app.route x all "
             "histories of <= 2 (thorough <= 3 on small and full tables) requests x 6 handler outcomes through the "
-            "real callback_route: exactly the registered handler ran once, exactly one message on that "
-            "application's send queue, UNABLE_TO_COMPLY content when the handler gave no answer.",
-            "Sequential dispatch (concurrency is C14); in-process Worker with a stand-in manager; unregistered "
-            "pairs and non-Exception BaseExceptions are outside the statement.",
+            "real callback_route; every builtin Exception subclass and every class of bromelia.exceptions x 7 argument "
+            "shapes; answers lacking the Session-Id; request shapes lacking Session-Id / Origin-Host / Origin-Realm: "
+            "exactly the registered handler ran once, exactly one message on that application's send queue, "
+            "UNABLE_TO_COMPLY content when the handler gave no answer. SCHED part: two (thorough three) requests in "
+            "flight with handlers returning a module-level answer / module-level AVPs / fresh objects, every schedule "
+            "with <= 1 deviation (thorough 2): one answer per request with that request's identity.",
+            "In-process Worker with a stand-in manager (queues snapshot by pickling in the SCHED part, as manager "
+            "queues do); unregistered pairs and BaseExceptions that are neither Exception nor the library's own are "
+            "outside the statement.",
             "DESIGN.md 4/C13"),
     "C14": ("SCHED", "model_checking",
             "stateless deviation-bounded schedule exploration of the real threads on a virtual runtime",
@@ -175,13 +183,15 @@ CLAIMED = {
             "as a module global of bromelia.base; data-independence argument for 3 symbols.",
             "DESIGN.md 4/C15"),
     "C16": ("HIST", "model_checking",
-            "explicit-state breadth-first search over generation histories on the real Session-Id generator with a virtual clock",
-            "BFS over histories of <= 7 (quick) / <= 9 (thorough) operations from a 12-operation alphabet (Session-Id "
+            "explicit-state breadth-first search over generation histories on the real Session-Id generator with a virtual clock, plus stateless schedule exploration of concurrent generation",
+            "BFS over histories of <= 7 (quick) / <= 9 (thorough) operations from a 14-operation alphabet (Session-Id "
             "AVPs for two identities, typed messages, bulk origin updates keeping/switching identity, explicit "
             "session_id updates, Acct-Multi-Session-Id, bytes pass-through, clock +1 s): all generated ids pairwise "
-            "distinct, RFC 6733 grammar, identity prefix, bytes unchanged.",
+            "distinct, RFC 6733 grammar, identity prefix, bytes unchanged. SCHED part: two (thorough three) threads "
+            "generating at once (AVPs for one or two identities, a typed message, a bulk origin update), every schedule "
+            "with <= 2 deviations: ids pairwise distinct.",
             "datetime.utcnow substituted in bromelia._internal_utils; depth-bounded (the counter makes the space "
-            "infinite); single-threaded generation.",
+            "infinite).",
             "DESIGN.md 4/C16"),
     "C17": ("ENUM", "exploration",
             "bounded-exhaustive enumeration of the real predicates against n // 1000",
